@@ -191,13 +191,17 @@ def execute(case, scratch):
                 head, groups = c14.split_codebasin(c["out"])
                 # the warnings part of the output names paths as spelled; compare from the summary on
                 i = head.find("Summary")
+                # duplicate groups are only comparable when decoration left every file's bytes alone
+                # ("./" in an include directive changes the including file's content)
+                same_bytes = all(W.file_text(world, p) == W.file_text(cw, p) for p in cw["files"])
                 outs.append({"rc": c["rc"], "summary": head[i:] if i >= 0 else head,
-                             "dups": sorted(sorted(g) for g in groups), "tree_rc": t["rc"],
+                             "dups": sorted(sorted(g) for g in groups) if same_bytes else None, "tree_rc": t["rc"],
                              "tree_root": tree_root_line(t["out"])})
             if outs[0] != outs[1]:
                 k = next(k for k in outs[0] if outs[0][k] != outs[1][k])
                 return viol("front_end_output_differs." + k, {"canonical": outs[0][k], "aliased": outs[1][k]})
-        return {"verdict": "ok", "stats": stats, "nontrivial": bool(aliased or world.get("links"))}
+        return {"verdict": "ok", "stats": stats, "nontrivial": bool(aliased or world.get("links")),
+                "obs_digest": core.jdigest([od["attr"], od["setmap"], sorted(od["events"]), sorted(oc["events"])])}
     finally:
         W.cleanup(top)
         W.cleanup(topc)
